@@ -4,7 +4,7 @@
 From Coq Require Import NArith ZArith List Bool String.
 From FitV Require Import Model.Values Model.Bytes Model.Profile Model.Reflect Model.Components Model.Route Model.IO
   Model.Encode Model.Decode Spec.RoundTrip
-  Spec.RouteSpec Proofs.C07Fixpoint Proofs.C07Reencode Proofs.C07DecodeWf Proofs.C07Integrity Proofs.StreamDenoteDecode Proofs.EncExamples.
+  Spec.RouteSpec Proofs.C07Fixpoint Proofs.C07Reencode Proofs.C07DecodeWf Proofs.C07Integrity Proofs.C07CsdLength Proofs.StreamDenoteDecode Proofs.EncExamples.
 Import ListNotations.
 Local Open Scope N_scope.
 
@@ -154,6 +154,40 @@ Proof. exact content_eq7_sym. Qed.
 Theorem C07_content_eq7_trans : forall f1 f2 f3, content_eq7 f1 f2 = true -> content_eq7 f2 f3 = true -> content_eq7 f1 f3 = true.
 Proof. exact content_eq7_trans. Qed.
 Print Assumptions C07_content_eq7_trans.
+
+(* ---- the value-equality clause ("... decodes successfully with the same per-type message counts and equal numeric,
+   time and coordinate field values ...; encoding that second result again yields the same decoded content").
+   FULL STATEMENT (refuted) for records that carry a compressed_speed_distance array; the clause is claimed only for
+   decoded Files none of whose records has a compressed_speed_distance source (array nil, empty, or 0xFF in its first
+   three bytes: csd_free of Spec/RoundTrip.v), for two recorded reasons:
+   (1) csd_array_length: RecordMsg.expandComponents expands the array only when it has exactly 3 bytes.  The validator
+       accepts a definition that gives field 8 any size; Decode then leaves Speed/Distance alone; Encode pads or cuts the
+       array to the profile's 3 bytes; the next Decode DOES expand.  Witnesses below: a 2-byte and a 5-byte array.
+   (2) csd_accumulator: with exactly 3 bytes Speed and Distance are derived in both generations, but Distance continues
+       the process-wide accumulator and EnhancedSpeed follows the derived Speed one generation late (third witness:
+       even from fresh accumulators generation 1 has EnhancedSpeed invalid and generation 2 has 528).
+   csd_obs pay = (array, Speed, Distance) of the record in generation 1, the same in generation 2 (Decode of Encode
+   of generation 1, little endian, fresh accumulators) and the verdict of content_eq7. *)
+Theorem C07_reencode_csd_array_length_refuted :
+  csd_obs [0x10; 0x32] =
+  Some (VList [VU 16; VU 50], VU 65535, VU 4294967295, (VList [VU 16; VU 50; VU 255], VU 528, VU 243), false).
+Proof. exact reencode_csd_array_length_refuted. Qed.
+Print Assumptions C07_reencode_csd_array_length_refuted.
+Theorem C07_reencode_csd_array_length5_refuted :
+  csd_obs [0x10; 0x32; 0x54; 0x76; 0x98] =
+  Some (VList [VU 16; VU 50; VU 84; VU 118; VU 152], VU 65535, VU 4294967295, (VList [VU 16; VU 50; VU 84], VU 528, VU 67), false).
+Proof. exact reencode_csd_array_length5_refuted. Qed.
+Theorem C07_reencode_csd_three_bytes :
+  csd_obs [0x10; 0x32; 0x54] =
+  Some (VList [VU 16; VU 50; VU 84], VU 528, VU 67, (VList [VU 16; VU 50; VU 84], VU 528, VU 67), false) /\
+  match gens [0x10; 0x32; 0x54] with
+  | Some (f1, f2) => match first_record f1, first_record f2 with
+                     | Some m1, Some m2 => (fld m1 "EnhancedSpeed", fld m2 "EnhancedSpeed") = (VU 4294967295, VU 528)
+                     | _, _ => False
+                     end
+  | None => False
+  end.
+Proof. exact reencode_csd_three_bytes. Qed.
 
 (* FULL STATEMENT (refuted): Encode succeeds on every File Decode returns.  The decoder hands out any
    bytes before the first NUL as a string; encodeString refuses what is not valid UTF-8 (known finding
